@@ -1,6 +1,6 @@
 import c16_driver
 PROPS = {
-    "C16": dict(variant="asan", cases=(600, 6000), timeout=300, chunk=5, level="translation_validation", min_nontrivial=60,
+    "C16": dict(variant="asan", cases=(1500, 12000), timeout=300, chunk=5, level="translation_validation", min_nontrivial=60,
                 driver=c16_driver.driver,
                 rule="case = one script: a seeded generator draws a grid configuration (family, rule, dims, outputs, depth, type, anisotropic weights, "
                      "alpha/beta, order, level limits, domain transform, conformal map, custom-tabulated rule) and then 3..8 tasgrid invocations that are legal "
